@@ -169,11 +169,17 @@ func (store *BaseStore[E]) createCompositeEntitySymbol(name string, first linked
 		}
 	}
 	return &compositeEntitySetSymbol{
-		name:        name,
-		symbolType:  rest.GetType(),
-		chain:       iterable,
-		cursor:      nil,
-		cursorLastF: last.Eval,
+		name:       name,
+		symbolType: rest.GetType(),
+		chain:      iterable,
+		cursor:     nil,
+		lastSymbol: last,
+		cursorLastF: func(tx *bbolt.Tx, key []byte) (FieldType, []byte) {
+			// the last symbol is not part of the cursor chain (a mapped or external symbol): it is evaluated for the
+			// entity the cursor stands on, whose id the cursor holds as a stored, type-tagged key
+			_, id := GetTypeAndValue(key)
+			return last.Eval(tx, id)
+		},
 	}
 }
 
